@@ -13,6 +13,10 @@ truthiness            truthiness of d.get(k): `d.get(k) or default`, `if d.get(k
                       `v = d.get(k) ... if not v:` -- an entry holding 0, False,
                       "" or an empty container is then treated as absent.  Two
                       reviewed instances on the tree are sanctioned by name.
+dropped forwarding    f(p=...) calls g, g has a defaulted parameter also named
+                      p, and the call does not bind it: g's default silently
+                      replaces the caller's value (23 forwarding calls on the
+                      reviewed tree, none dropped).
 """
 import ast
 
@@ -42,6 +46,35 @@ def swapped_arguments(repo, m):
                 if a != p and a in bound and bound[a] == p and p < a:
                     out.append((fn, c, "passes `%s` as parameter %s and `%s` as parameter %s of %s" % (a, p, p, a, tgt.name)))
     return out
+
+
+def dropped_forwarding(repo, m):
+    """(function, call, reason) for every call g(...) inside a function f where f has a parameter p, the
+    resolved callee g has a *defaulted* parameter also named p, and the call does not bind g's p at all:
+    the caller's request silently falls back to g's default.  (count of calls that do forward such a
+    parameter is returned as well, for the vacuity floor)"""
+    out, forwarded = [], 0
+    for fn in [f for f in ast.walk(m.tree) if isinstance(f, (ast.FunctionDef, ast.AsyncFunctionDef))]:
+        mine = set(a.arg for a in fn.args.posonlyargs + fn.args.args + fn.args.kwonlyargs)
+        for c in ast.walk(fn):
+            if not (isinstance(c, ast.Call) and isinstance(c.func, ast.Name)):
+                continue
+            tgt = repo.resolve(m.name, c.func.id)
+            if tgt is None or getattr(tgt, "kind", None) != "func" or tgt.node is None or tgt.node is fn:
+                continue
+            if any(isinstance(a, ast.Starred) for a in c.args) or any(k.arg is None for k in c.keywords):
+                continue
+            ta = tgt.node.args
+            pos = [a.arg for a in ta.posonlyargs + ta.args]
+            ndef = len(ta.defaults)
+            defaulted = set(pos[len(pos) - ndef:] if ndef else []) | set(a.arg for a, d in zip(ta.kwonlyargs, ta.kw_defaults) if d is not None)
+            bound = set(pos[: len(c.args)]) | set(k.arg for k in c.keywords)
+            for p in sorted(defaulted & mine):
+                if p in bound:
+                    forwarded += 1
+                else:
+                    out.append((fn, c, "call of %s does not pass on `%s` (a parameter of both; %s's default is used instead of the caller's value)" % (tgt.name, p, tgt.name)))
+    return out, forwarded
 
 
 def stale_lower_bound_guards(m):
@@ -155,6 +188,10 @@ class R(object):
         self.cur = b
     def done(self):
         return not self.cur
+def h(w, h, n=0):
+    return w
+def k(w, n=3):
+    return h(w, 1) + h(w, 2, n)
 def g(d):
     v = d.get("k")
     if not v:
@@ -186,7 +223,7 @@ def selfcheck():
                 return s
             return None
 
-    if len(swapped_arguments(R(), m)) != 1 or len(stale_lower_bound_guards(m)) != 1 or len(truthiness_presence(m)) != 2 or len(optional_attr_truthiness(m)) != 1:
+    if len(swapped_arguments(R(), m)) != 1 or len(stale_lower_bound_guards(m)) != 1 or len(truthiness_presence(m)) != 2 or len(optional_attr_truthiness(m)) != 1 or (len(dropped_forwarding(R(), m)[0]), dropped_forwarding(R(), m)[1]) != (1, 1):
         raise AnalysisError("bug-pattern rules no longer recognise their positive fixture")
 
 
@@ -198,5 +235,6 @@ def rule(repo, res, rid, modules):
         sw = swapped_arguments(repo, m)
         st = stale_lower_bound_guards(m)
         tp = [(fn, n, why) for fn, n, why in truthiness_presence(m) if (name, fn.name) not in TRUTHINESS_SANCTIONED] + optional_attr_truthiness(m)
-        bad = ["%s in %s (line %d)" % (why, fn.name, n.lineno) for fn, n, why in sw] + ["%s in %s" % (why, fn.name) for fn, n, why in st] + ["%s in %s (line %d)" % (why, fn.name, n.lineno) for fn, n, why in tp]
-        res.check(not bad, rid, "bug-patterns:%s" % name, m.rel, "; ".join(bad), by="no swapped same-named arguments, no lower-bound guard followed by a decrement, no presence-by-truthiness of a dictionary entry")
+        df, _fw = dropped_forwarding(repo, m)
+        bad = ["%s in %s (line %d)" % (why, fn.name, n.lineno) for fn, n, why in sw + df] + ["%s in %s" % (why, fn.name) for fn, n, why in st] + ["%s in %s (line %d)" % (why, fn.name, n.lineno) for fn, n, why in tp]
+        res.check(not bad, rid, "bug-patterns:%s" % name, m.rel, "; ".join(bad), by="no swapped same-named arguments, no lower-bound guard followed by a decrement, no presence-by-truthiness of a dictionary entry, every same-named defaulted parameter passed on")
